@@ -734,14 +734,34 @@ def run_cfg(case):
         out['cfg'] = 'reject'
     except Exception as e:
         out['cfg'] = 'exc:' + type(e).__name__
-    raw = Configuration().__for_test__()
-    object.__setattr__(raw, 'http2_connection_window_size', cw)
-    object.__setattr__(raw, 'http2_stream_window_size', sw)
+    def resolved(conf):
+        """the configuration with its role defaults filled in (no keep-alive), as grpclib.testing obtains it"""
+        for name in ('__for_test__', '__for_client__', '__for_server__'):
+            f = getattr(conf, name, None)
+            if callable(f):
+                try:
+                    return f()
+                except Exception:
+                    pass
+        return None
+
+    raw = resolved(Configuration())
+    if raw is not None:
+        try:
+            object.__setattr__(raw, 'http2_connection_window_size', cw)
+            object.__setattr__(raw, 'http2_stream_window_size', sw)
+        except Exception:
+            raw = None
     client = case['side'] == 'client'
 
     def preface(conf):
+        if conf is None:
+            return 'unobservable'
         with vloop.session():
-            proto = H2Protocol(None, conf, H2Configuration(client_side=client, header_encoding='ascii'))
+            try:
+                proto = H2Protocol(None, conf, H2Configuration(client_side=client, header_encoding='ascii'))
+            except Exception:
+                return 'unobservable'
             peer = P.Peer(client_side=not client)
             tr = wire.MemTransport(proto, on_write=peer.receive)
             peer.attach(tr)
@@ -757,7 +777,7 @@ def run_cfg(case):
                                        v['iws'][0] if len(v['iws']) == 1 else ('-' if not v['iws'] else v['iws']),
                                        v['conn'], v['stream'])
     out['raw'] = preface(raw)
-    out['full'] = preface(cfg.__for_test__()) if out['cfg'] == 'ok' else out['cfg']
+    out['full'] = preface(resolved(cfg)) if out['cfg'] == 'ok' else out['cfg']
     return out
 
 
@@ -972,13 +992,17 @@ def check_cfg_cases(ctx, res, cases):
         if answers is not None:
             res.traces += 1
             model = {'full': answers[2 * n], 'raw': answers[2 * n + 1]}
+            for key in ('full', 'raw'):              # what the harness could not observe is masked on both sides
+                if impl[key] == 'unobservable':
+                    res.count('unobservable:preface')
+                    model[key] = 'unobservable' if not (key == 'full' and model[key] == 'reject') else model[key]
             if model != {'full': impl['full'], 'raw': impl['raw']}:
                 res.disagreements.append({'case': c, 'model': model, 'impl': impl})
         # direct oracle
         if legal:
             want_wu = '-' if cw == WMIN else str(cw - WMIN)
             want_iws = '-' if sw == WMIN else str(sw)
-            if impl['full'] != 'ok %s %s %d %d' % (want_wu, want_iws, cw, sw):
+            if impl['full'] != 'unobservable' and impl['full'] != 'ok %s %s %d %d' % (want_wu, want_iws, cw, sw):
                 res.oracle_failures.append({'case': c, 'what': 'legal configuration (%d, %d): the peer sees %s'
                                             % (cw, sw, impl['full']),
                                             'signature': {'op': 'cfg', 'kind': 'advertised-window'}, 'observed': impl})
